@@ -277,11 +277,37 @@ func (E *Engine) checkProperty(prop, tier string) int {
 	// vacuity guard 1: every baseline obligation must have been generated
 	missing := 0
 	if baseline != nil {
+		// obligations that were discharged on the unchanged tree and are no longer generated: one report per
+		// function (its contract no longer applies to its code, or the function left the verifiable subset)
+		groups := map[string][]string{}
+		var gorder []string
 		for _, b := range baseline[prop] {
 			if _, ok := all[b]; !ok {
 				missing++
-				report(b, "obligation-vanished", "", map[string]any{"tool_limits": toolLimits})
+				g := b
+				for _, k := range keys {
+					if strings.HasPrefix(b, k+"/") && (g == b || len(k) > len(g)) {
+						g = k
+					}
+				}
+				if _, seen := groups[g]; !seen {
+					gorder = append(gorder, g)
+				}
+				groups[g] = append(groups[g], b)
 			}
+		}
+		for _, g := range gorder {
+			var why []string
+			for _, tl := range toolLimits {
+				if strings.HasPrefix(tl, g+":") {
+					why = append(why, tl)
+				}
+			}
+			name := g
+			if len(groups[g]) > 1 || groups[g][0] != g {
+				name = g + "/obligations-vanished"
+			}
+			report(name, "obligation-vanished", "", map[string]any{"obligations_discharged_on_the_unchanged_tree_and_no_longer_generated": groups[g], "reason": why, "all_tool_limits": toolLimits})
 		}
 	}
 	for _, tl := range toolLimits {
